@@ -16,6 +16,12 @@ primary molecule itself far from the origin.  There the doubles of the input sti
 geometry far below the 1e-8 rounding (ulp(3e6) = 4.7e-10), so the property demands the same oriented
 coordinates; the only extra allowance is the floating-point resolution of the input, 4e-15 * (1 + max|x|),
 propagated through the same first-order perturbation bound as every other input displacement.
+
+Call sequences: the model is a pure function of (masses, geometry, eigh output); the implementation is a method of a class living in a
+long-running process.  The family stream (gen_family / run_family) orients one structure and its relatives (other masses on bit-identical
+coordinates, other fields, displaced / permuted / moved coordinates, ...) one after another in this process, through all entry points, with
+reused objects and a reused argument buffer, and demands the property of every single call with that call's own molecule; it also checks that
+nothing the caller holds (arguments, unoriented molecule, earlier results) is modified.  A replay of a family re-runs the whole sequence.
 """
 from __future__ import annotations
 
@@ -30,7 +36,7 @@ import numpy as np
 from common import Ctx, Finding, Outcome, err_class
 
 PROPERTY = "C16"
-LEAN_TARGETS = ["QcelVerif.Props.C16", "QcelVerif.Lemmas.OrientUnique", "QcelVerif.Props.C16Unique", "QcelVerif.Driver.C16"]
+LEAN_TARGETS = ["QcelVerif.Props.C16", "QcelVerif.Lemmas.OrientUnique", "QcelVerif.Props.C16Unique", "QcelVerif.Props.C16Masses", "QcelVerif.Driver.C16"]
 DRIVER = "QcelVerif/Driver/C16.lean"
 N = "QcelVerif.Orient."
 THEOREMS = [
@@ -63,6 +69,9 @@ THEOREMS = [
     (N + "orientCore_zero_mass", "masses summing to zero -> the model returns the ZeroDivision error (np.average), never a repaired geometry"),
     (N + "flushed_decider_witness", "concrete exact-rational witness (kernel-evaluated test) of the known finding: a legitimate eigen-frame, atom 0 at 3e-7 off a plane decides the sign, float_prep prints it as 0 and the first non-zero atom of that column is negative"),
     (N + "floatPrep_small", "|v| < 10^-8 -> float_prep(v, 8) = 0 (sub-noise columns, e.g. planar/linear molecules, print as exact zeros whatever their sign)"),
+    (N + "wsum_center_other", "centring with masses ms, weighing with OTHER masses ms' (one per atom, total /= 0): sum m'_i (x_i - c_ms) = (sum m') (c_ms' - c_ms)"),
+    (N + "orient_com_other_masses", "stale frame: out = geometry oriented with masses ms (V Vt = 1); for any other masses ms' the ms'-weighted sum of out is 0 IFF the centre of mass of the input under ms' equals the one under ms (so the com clause evaluated with a molecule's OWN masses exposes a frame computed for another isotopologue whenever the two centres differ)"),
+    (N + "stale_frame_witness", "concrete exact-rational witness (kernel-evaluated test): H-H-H on a line, frame for masses [1,1,1] is centred for [1,1,1] and not for the isotopologue [2,1,1]"),
 ]
 TRUSTED_BASE = [
     "Lean 4.33 kernel + Mathlib (ring/linear_combination/order lemmas); axioms per theorem audited on every run",
@@ -70,12 +79,22 @@ TRUSTED_BASE = [
     "numpy.linalg.eigh is NOT trusted: its output is certified per call (VtV, VVt, VtTV, order) exactly in rationals by the driver; the theorems assume the exact versions of the certified relations",
     "numpy elementwise IEEE arithmetic (compared with the exact rational value under stated tolerances), np.around = rint(x*10^k)/10^k",
     "harness/c16.py generators, tolerances and the Python oracle",
+    "call-sequence stream: CPython object identity / numpy buffer semantics (one caller-owned geometry buffer reused for every constructor / from_data call; "
+    "snapshots of arguments, unoriented molecules and returned molecules compared as JSON of .dict() + bytes of the geometry array)",
 ]
 ASSUMPTIONS = [
     "validated molecules of 1-12 atoms (plus a 12-case unvalidated stream with zero total mass to exercise the ZeroDivisionError branch of the model; no oracle demand there)",
     "theorems are over exact fields: orthogonality and diagonalisation of V are hypotheses, certified per call to ~1e-15; floating-point error of the implementation is covered by the correspondence tolerances only",
     "uniqueness claims (rigid copies, double orientation) are demanded for asymmetric tops with relative gaps between consecutive moments >= 1e-3; eigen-frame uniqueness is proved (eigframe_unique / eigvals_unique) for EXACT certificates with pairwise distinct moments and used in orient_rigid_invariant / orient_idempotent; a quantitative (perturbation) version for the ~1e-15 certified residuals is not proved",
     "'within the geometry rounding' = float_prep as implemented: rounding to 1e-8 and flushing |x| < 5^-9 = 5.12e-7 to zero",
+    "call sequences: orientation is taken to be a function of the molecule it is applied to - every call in a sequence of related molecules made in one process must "
+    "satisfy the property with that molecule's own masses, coordinates and fields; the caller's arguments, the unoriented molecule and molecules returned earlier must "
+    "not be modified by any call (the property's 'preserves ... all non-geometric fields' read on the objects the caller holds). Histories explored: one process, "
+    "4-8 relatives per family, 10-30 calls, preceded by the whole single-case stream; state that only shows across processes, threads, or after more than ~10^5 calls "
+    "(e.g. eviction of a large cache) is not explored. Equality of two orientations of bit-identical input is demanded for asymmetric tops only (the rigid-copy claim at "
+    "the identity motion), within rounding + the same floating-point allowance",
+    "known finding C16-from-data-kwargs-into-input-dict: Molecule.from_data(dict, **options) writes the options into the caller's dict; reported under its own kind "
+    "(exactly the options of that call were added, nothing else changed), every other modification of an argument is oracle:input_mutated",
     "rigid motions: integer-quaternion rotations x rational translations of up to 40 bohr (near copy) and of 10^2.5..10^6.5 bohr (far copy / far primary); "
     "longer translations are not generated: a floating-point allowance of 4e-15*(1+max|input coordinate|) bohr per coordinate (18 ulp of the input; "
     "(2n+1) roundings of the weighted mean at n = 12 are 2.8e-15) is granted to the implementation, and beyond ~3e6 bohr that allowance itself exceeds the 1e-8 rounding",
@@ -89,14 +108,25 @@ RULE = (
     "quaternion and a translation of log-uniform length 10^2.5..10^6.5 bohr (axis-aligned | diagonal | generic direction, integer or k/3, k/7, k/8 "
     "components), and ~15% of the cases place the primary itself that far out (so second pass, sign convention and both copies start from a "
     "far input); every claim (distances, centre of mass, diagonal ascending inertia, same coordinates as the primary) is demanded of the far "
-    "copy. Distinct by (shape, n, masses mode, path, quaternion, decider pattern, decade of the far translation, far primary); non-trivial when n >= 2."
+    "copy. Distinct by (shape, n, masses mode, path, quaternion, decider pattern, decade of the far translation, far primary); non-trivial when n >= 2. "
+    "CALL-SEQUENCE stream (after the single cases, same process): family = one generated molecule + 3-7 relatives drawn from {same, other masses (default | user | "
+    "nonphysical), ONE atom's mass changed, isotopes via mass_numbers, other ghosts, other non-geometric fields (name, comment, extras, labels, fragments, connectivity, "
+    "fix_com/fix_orientation), conformer (1..n atoms displaced by 1e-7..0.3 bohr), atom permutation, other elements on the same coordinates, rigid copy, one atom removed, "
+    "and combinations; relatives of relatives too} - relatives keep the coordinates BIT-IDENTICAL unless the variation is geometric. The calls of a family (each member at "
+    "geometry_noise 8 and 14 at least once, plus random repeats at 6/8/10/12/14 through ctor | orient_molecule() | from_data, plus re-orientations of results returned "
+    "earlier) are shuffled and interleaved; one unoriented Molecule per member serves all its orient_molecule() calls; one geometry buffer per atom count is overwritten "
+    "and passed to every ctor/from_data call. Every call is a model line and is judged by the oracle with its own molecule's masses/fields: distances, centre of mass, "
+    "diagonal ascending inertia, fields, sign convention (deciders from the geometry_noise=14 call on the same input), arguments / unoriented molecule / earlier results "
+    "unmodified, repeated orientation of bit-identical input equal (asymmetric tops). Distinct by (shape, n, set of variations, number of calls)."
 )
 LEVEL_TEXT = (
     "proof (partial): centring, isometry, tensor transformation law, diagonal tensor with the certified eigenvalues as moments, the exact "
     "behaviour of the phase loop and untouched fields are proved for all inputs over any (ordered) field; idempotence and rigid invariance "
     "are proved in exact arithmetic for any two exact eigen-frame certificates, under the property's own qualifiers (pairwise distinct "
     "principal moments, an off-plane atom in every column); eigen-frame uniqueness is proved, not assumed. eigh is a parameter "
-    "certified per call; floating point is tied by tolerance-based correspondence, not proved."
+    "certified per call; floating point is tied by tolerance-based correspondence, not proved. That the result depends on nothing but the molecule is "
+    "true of the model by construction (a pure function; orient_com_other_masses says when a frame computed for other masses would still pass); of the implementation "
+    "it is only TESTED, on sampled call sequences within one process."
 )
 TECHNIQUE = "Lean 4 proof over generic fields + per-call eigen-frame certificate + exact-rational differential correspondence + Python oracle"
 
@@ -938,6 +968,393 @@ def zero_mass_stream(ctx, out: Outcome):
                 out.mismatches.append(Finding(kind, case, observed=msg, detail=msg))
 
 
+# --------------------------------------------------------------------------------------
+# call-sequence ("family") stream: orientation is a function of the molecule it is applied to, not of the history of the process
+#
+# One family = one structure and its near relatives (same coordinates with other masses / isotopes / one substituted atom / other
+# ghosts / other non-geometric fields / other elements; the same atoms displaced by 1e-7..0.3 bohr, permuted, rigidly moved, with one
+# atom removed), oriented one after another IN ONE PROCESS in a shuffled, interleaved order through all three entry points, with
+# repeated calls, several geometry_noise values, one unoriented Molecule object per member reused for every orient_molecule() call,
+# earlier results re-oriented later, and ONE caller-owned geometry buffer per atom count reused (overwritten) for every
+# constructor / from_data call.  Every single call must satisfy the property for ITS OWN molecule.
+
+
+FAMILIES_QUICK, FAMILIES_THOROUGH = 240, 2400
+FAM_SHAPES = ["asym"] * 7 + ["planar"] * 2 + ["linear"] + ["symtop"] * 2 + ["neardeg"] + ["band"]
+FAM_VARIANTS = ["same", "masses", "masses", "one_mass", "one_mass", "isotope", "ghosts", "fields", "fields", "conformer", "conformer",
+                "perm", "symbols", "rigid", "drop_atom", "masses+fields", "conformer+masses", "perm+masses"]
+MASS_KEYS = ("masses", "mass_numbers", "nonphysical")
+
+
+def _strip_masses(kw):
+    return {k: v for k, v in kw.items() if k not in MASS_KEYS}
+
+
+def _default_masses(symbols):
+    import qcelemental as qcel
+
+    return [float(qcel.periodictable.to_mass(s)) for s in symbols]
+
+
+def vary_member(rng, kw, geom, var):
+    """one relative of (kw, geom); returns (kw', geom') - validity is decided by the library when the family is run"""
+    kw = json.loads(json.dumps(kw))
+    geom = [list(p) for p in geom]
+    n = len(geom)
+    for part in var.split("+"):
+        if part == "same":
+            pass
+        elif part == "masses":
+            kw = _strip_masses(kw)
+            mode = rng.choice(["default", "user", "user", "nonphysical", "nonphysical"])
+            if mode != "default":
+                base = _default_masses(kw["symbols"])
+                if mode == "user":
+                    kw["masses"] = [round(m0 + rng.uniform(-0.4, 0.4), rng.choice([2, 6, 10])) for m0 in base]
+                else:
+                    kw["masses"] = [round(rng.choice([rng.uniform(0.6, 3.0), rng.uniform(3, 60), rng.uniform(60, 400)]), rng.choice([1, 5, 9])) for _ in base]
+                    kw["nonphysical"] = True
+        elif part == "one_mass":
+            # a single substituted atom (H -> D style): everything else, coordinates included, stays bit-identical
+            base = _default_masses(kw["symbols"])
+            kw = _strip_masses(kw)
+            i = rng.randrange(n)
+            base[i] = round(base[i] * rng.choice([rng.uniform(1.02, 1.2), rng.uniform(1.9, 3.1), rng.uniform(0.3, 0.9)]), 6)
+            kw["masses"] = base
+            kw["nonphysical"] = True
+        elif part == "isotope":
+            kw = _strip_masses(kw)
+            cand = [i for i, s in enumerate(kw["symbols"]) if s in ISO]
+            A = [-1] * n
+            for i in (rng.sample(cand, rng.randint(1, len(cand))) if cand else []):
+                A[i] = rng.choice(ISO[kw["symbols"][i]])
+            kw["mass_numbers"] = A
+        elif part == "ghosts":
+            real = [rng.random() > 0.4 for _ in range(n)]
+            if not any(real):
+                real[rng.randrange(n)] = True
+            kw["real"] = real
+        elif part == "fields":
+            for k in ("name", "comment", "extras", "atom_labels", "connectivity", "fragments", "fix_com", "fix_orientation"):
+                if rng.random() < 0.5:
+                    kw.pop(k, None)
+            if rng.random() < 0.6:
+                kw["name"] = "rel%d" % rng.randint(0, 99)
+            if rng.random() < 0.4:
+                kw["comment"] = "relative %d" % rng.randint(0, 9)
+            if rng.random() < 0.4:
+                kw["extras"] = {"tag": rng.randint(10, 19), "who": "family"}
+            if rng.random() < 0.3:
+                kw["atom_labels"] = [rng.choice(["", "q", "r7"]) for _ in range(n)]
+            if rng.random() < 0.3 and n >= 2:
+                cut = rng.randint(1, n - 1)
+                kw["fragments"] = [list(range(cut)), list(range(cut, n))]
+            if rng.random() < 0.3 and n >= 2:
+                i, j = sorted(rng.sample(range(n), 2))
+                kw["connectivity"] = [[i, j, float(rng.choice([1, 2, 3]))]]
+            if rng.random() < 0.3:
+                kw["fix_com"] = rng.random() < 0.5
+                kw["fix_orientation"] = rng.random() < 0.5
+        elif part == "conformer":
+            mag = 10.0 ** rng.uniform(-7.0, -0.5)
+            for i in rng.sample(range(n), rng.randint(1, n)):
+                geom[i] = [v + mag * rng.uniform(-1, 1) for v in geom[i]]
+        elif part == "perm":
+            p = list(range(n))
+            rng.shuffle(p)
+            geom = [geom[i] for i in p]
+            for k in ("symbols", "masses", "mass_numbers", "real", "atom_labels"):
+                if k in kw:
+                    kw[k] = [kw[k][i] for i in p]
+            kw.pop("connectivity", None)
+            kw.pop("fragments", None)
+        elif part == "symbols":
+            kw = _strip_masses(kw)
+            for i in rng.sample(range(n), rng.randint(1, n)):
+                kw["symbols"][i] = rng.choice(ELEMS)
+        elif part == "rigid":
+            q = [rng.randint(-6, 6) for _ in range(4)]
+            if not any(q):
+                q = [1, 2, -1, 3]
+            geom = rigid(geom, q, ["%d/%d" % (rng.randint(-40, 40), rng.choice([1, 2, 3, 7, 8, 10])) for _ in range(3)])
+        elif part == "drop_atom":
+            if n >= 2:
+                i = rng.randrange(n)
+                del geom[i]
+                for k in ("symbols", "masses", "mass_numbers", "real", "atom_labels"):
+                    if k in kw:
+                        del kw[k][i]
+                kw.pop("connectivity", None)
+                kw.pop("fragments", None)
+                n -= 1
+        else:
+            raise ValueError(part)
+    return kw, [[float(v) for v in p] for p in geom]
+
+
+def gen_family(rng):
+    base = gen_case(rng, rng.choice(FAM_SHAPES))
+    members = [{"var": "base", "kw": base["kw"], "geometry": base["geometry"]}]
+    for _ in range(rng.randint(3, 7)):
+        var = rng.choice(FAM_VARIANTS)
+        src = members[0] if rng.random() < 0.75 else rng.choice(members)  # relatives of relatives too
+        kw, g = vary_member(rng, src["kw"], src["geometry"], var)
+        members.append({"var": var, "kw": kw, "geometry": g})
+    steps = []
+    for mi in range(len(members)):
+        steps.append({"m": mi, "path": rng.choice(["ctor", "method", "from_data"]), "noise": None})
+    for _ in range(rng.randint(2, 2 + len(members))):
+        steps.append({"m": rng.randrange(len(members)), "path": rng.choice(["ctor", "method", "from_data"]), "noise": rng.choice([None, None, None, 14, 6, 10, 12])})
+    # every (member, kind of input the orientation sees) that is oriented at the default rounding also gets a geometry_noise=14 call:
+    # the oracle reads the deciding atoms of the sign convention from it
+    have = {(s["m"], s["path"] == "method") for s in steps if s["noise"] == 14}
+    for s in list(steps):
+        key = (s["m"], s["path"] == "method")
+        if s["noise"] is None and key not in have:
+            have.add(key)
+            steps.append({"m": s["m"], "path": "method" if key[1] else rng.choice(["ctor", "from_data"]), "noise": 14})
+    rng.shuffle(steps)
+    # re-orient some earlier results later on (the returned object is used again after other calls have happened)
+    for _ in range(rng.randint(1, 3)):
+        pos = rng.randint(1, len(steps))
+        prev = [k for k in range(pos) if "again" not in steps[k] and steps[k]["noise"] is None]
+        if prev:
+            src = rng.choice(prev)
+            steps.insert(pos, {"again": src, "m": steps[src]["m"], "path": "again", "noise": None})
+            for s in steps[pos + 1:]:
+                if "again" in s and s["again"] >= pos:
+                    s["again"] += 1
+    return {"stream": "family", "shape": base["shape"], "members": members, "steps": steps}
+
+
+def sign_claims(H, O):
+    """the documented sign convention read on the default-rounding geometry O, with the deciding atoms taken from the
+    geometry_noise=14 geometry H of the same input (same rule as the single-case stream); returns
+    (list of (kind, message, observed), deciders, decider key, columns whose decider is printed as 0)"""
+    res = []
+    dec = deciders(H)
+    dkey, band_cols = [], []
+    for c in range(3):
+        i, v = dec[c]
+        if i == "knife":
+            dkey.append("k")
+            continue
+        if i is None:
+            dkey.append("-")
+            continue
+        dkey.append(str(i) if i < 3 else "3+")
+        if v < 0:
+            res.append(("oracle:sign_convention", f"column {c}: first atom off the plane (atom {i}, {v!r}) is negative in the oriented geometry (geometry_noise=14)", None))
+        if O[i, c] == 0.0:
+            band_cols.append(c)
+    for c in range(3):
+        nz = [i for i in range(O.shape[0]) if O[i, c] != 0.0]
+        if nz and O[nz[0], c] < 0 and dec[c][0] != "knife":
+            if c in band_cols:
+                res.append(("oracle:sign_convention_flushed_decider", f"column {c}: atom {dec[c][0]} ({dec[c][1]!r}) decided the sign but is printed as 0; the first atom with a non-zero coordinate (atom {nz[0]}, {O[nz[0], c]!r}) is negative",
+                            {"column": c, "decider_value": dec[c][1]}))
+            else:
+                res.append(("oracle:sign_convention", f"column {c}: first atom with a non-zero coordinate (atom {nz[0]}, {O[nz[0], c]!r}) is negative in the oriented geometry", None))
+    return res, dec, dkey, band_cols
+
+
+def same_input_limit(m, H, dec, gmax, Oa, Ob):
+    """two orientations of bit-identical input (an asymmetric top): the per-coordinate limit on |Oa - Ob| granted by the property
+    ('the same coordinates within the geometry rounding': the rigid-copy claim for the identity motion), or None when a phase
+    decision sits on a knife edge.  Same first-order bound as for rigid copies; the only displacement is the floating-point allowance."""
+    L = float(np.abs(H).max())
+    lamH = np.array([own_tensor(m, H)[a, a] for a in range(3)])
+    A = np.abs(H)
+
+    def bounds(E):
+        tol = E + (m[:, None] * E).sum(0) / m.sum()
+        for a in range(3):
+            for b in range(3):
+                if a != b:
+                    dT = float(np.sum(m * (A[:, a] * E[:, b] + A[:, b] * E[:, a])))
+                    tol[:, a] += 2.0 * dT / max(abs(lamH[a] - lamH[b]), 1e-300) * A[:, b]
+        return tol
+
+    r = 4e-15 * (1.0 + max(L, gmax))
+    t1 = bounds(np.full(H.shape, r))
+    for c in range(3):
+        i_dec = dec[c][0]
+        if i_dec == "knife":
+            return None
+        last = len(m) - 1 if i_dec is None else i_dec
+        for i in range(last + 1):
+            v = abs(float(H[i, c]))
+            if i == i_dec:
+                if v - t1[i, c] <= NOISE:
+                    return None
+            elif v + t1[i, c] >= NOISE:
+                return None
+    return bounds(np.full(H.shape, 2 * r)) + np.where((Oa == 0.0) != (Ob == 0.0), FLUSH8 + 1e-8, 1e-8) + 1e-10
+
+
+def _snap_kw(kw):
+    return json.dumps(_plain({k: v for k, v in kw.items() if k != "geometry"}), sort_keys=True), np.array(kw["geometry"], dtype=float).tobytes()
+
+
+def _snap_mol(mol, d=None):
+    d = mol.dict() if d is None else d
+    return json.dumps(_plain({k: v for k, v in d.items() if k != "geometry"}), sort_keys=True, default=repr), np.array(mol.geometry, dtype=float).tobytes()
+
+
+def run_family(ctx, out: Outcome, case, use_model=True):
+    from qcelemental.models import Molecule
+
+    findings_v, findings_m = [], []
+    V = lambda kind, msg, obs=None: findings_v.append(Finding(kind, case, observed=obs, detail=msg))  # noqa
+    members = case["members"]
+    # the unoriented molecule of every member: validation decides membership; the object is kept and reused for every
+    # orient_molecule() call of that member
+    bases = []
+    for mi, mem in enumerate(members):
+        kw = dict(mem["kw"])
+        kw["geometry"] = np.array(mem["geometry"], dtype=float).ravel()
+        try:
+            with _quiet():
+                b = Molecule(**kw)
+            bd = b.dict()
+            bases.append({"mol": b, "snap": _snap_mol(b, bd), "dict": bd, "masses": np.array(b.masses, dtype=float), "geom": np.array(b.geometry, dtype=float).copy()})
+        except Exception as e:
+            bases.append(None)
+            out.count("family:member_discarded:" + err_class(e))
+    if bases[0] is None:
+        out.count("discarded:family")
+        return
+    out.evaluations += 1
+    out.count("family")
+    out.count("family:shape:" + case["shape"])
+    bufs = {}
+    calls, results = [], {}  # results[step index] = record
+    for si, st in enumerate(case["steps"]):
+        mi, path, noise = st["m"], st["path"], st["noise"]
+        B = bases[mi]
+        if B is None:
+            continue
+        mem = members[mi]
+        d = 8 if noise is None else noise
+        tag = "step %d (member %d '%s', %s, geometry_noise=%d)" % (si, mi, mem["var"], path, d)
+        extra = {} if noise is None else {"geometry_noise": noise}
+        mb = B["masses"]
+        n = len(mb)
+        passed = None
+        try:
+            with _quiet():
+                if path == "again":
+                    src = results.get(st["again"])
+                    if src is None:
+                        continue
+                    gin = src["O"].copy()
+                    with EighTap() as tap:
+                        mol = src["mol"].orient_molecule()
+                    ref_dict = src["dict"]
+                elif path == "method":
+                    gin = B["geom"].copy()
+                    with EighTap() as tap:
+                        mol = B["mol"].orient_molecule() if noise is None else Molecule(orient=True, **extra, **B["mol"].dict())
+                    ref_dict = B["dict"]
+                else:
+                    buf = bufs.setdefault(n, np.empty(3 * n, dtype=float))
+                    buf[:] = np.array(mem["geometry"], dtype=float).ravel()  # the caller's buffer, reused from call to call
+                    kw = json.loads(json.dumps(mem["kw"]))
+                    kw["geometry"] = buf
+                    passed = (kw, _snap_kw(kw))
+                    gin = buf.reshape(-1, 3).copy()
+                    with EighTap() as tap:
+                        mol = Molecule.from_data(kw, orient=True, **extra) if path == "from_data" else Molecule(orient=True, **extra, **kw)
+                    ref_dict = B["dict"]
+        except Exception as e:
+            V("oracle:raises", f"{tag}: orientation of a validated molecule raised {type(e).__name__}: {e}", obs={"step": si})
+            continue
+        out.count("family:calls")
+        out.count("family:path:" + path)
+        out.count("family:var:" + mem["var"])
+        out.count("family:geometry_noise:%d" % d)
+        O = np.array(mol.geometry, dtype=float).copy()
+        dct = mol.dict()
+        rec = {"mol": mol, "O": O, "snap": _snap_mol(mol, dct), "dict": dct, "gin": gin, "d": d, "m": mi, "path": path, "tag": tag}
+        results[si] = rec
+        if len(tap.calls) != 1:
+            findings_m.append(Finding("mismatch:eigh_calls", case, observed=len(tap.calls), expected=1, detail=f"{tag}: expected exactly one numpy.linalg.eigh call per orientation"))
+        else:
+            calls.append((tag, d, np.array(mol.masses, dtype=float), gin, tap.calls[0], O))
+        # the caller's arguments are the caller's
+        if passed is not None and _snap_kw(passed[0]) != passed[1]:
+            before, after = json.loads(passed[1][0]), json.loads(_snap_kw(passed[0])[0])
+            changed = {k: after.get(k) for k in set(before) | set(after) if k not in before or k not in after or before[k] != after[k]}
+            if path == "from_data" and _snap_kw(passed[0])[1] == passed[1][1] and extra and changed == _plain(extra) and all(k not in before for k in changed):
+                # nothing but the keyword options of this very call, written into the caller's dict (from_data: input_dict = data; input_dict.update(kwargs))
+                V("oracle:from_data_kwargs_written_into_input", f"{tag}: Molecule.from_data(d, orient=True, **{extra}) added {changed} to the caller's dict d "
+                  "(a later from_data(d) without the option silently inherits it)", obs={"step": si, "added": changed, "kwargs": _plain(extra), "path": path})
+            else:
+                V("oracle:input_mutated", f"{tag}: the arguments passed to the constructor / from_data were modified by the call (changed keys: {sorted(changed)}; "
+                  f"geometry buffer {'modified' if _snap_kw(passed[0])[1] != passed[1][1] else 'intact'})", obs={"step": si})
+        mo = np.array(mol.masses, dtype=float)
+        if mo.shape != mb.shape or np.any(mo != mb):
+            V("oracle:fields", f"{tag}: masses of the oriented molecule differ from the masses of the unoriented one", obs={"step": si})
+        if O.shape != gin.shape:
+            V("oracle:fields", f"{tag}: shape of geometry changed", obs={"step": si})
+            continue
+        diffs = cmp_dicts(ref_dict, rec["dict"])
+        if diffs:
+            V("oracle:fields", f"{tag}: fields changed by orientation: {diffs}", obs={"step": si})
+        # distances, centre of mass, diagonal ascending inertia - with THIS molecule's masses and THIS call's input
+        for clause, msg in base_claims(tag, mb, gin, O, d):
+            V("oracle:" + clause, msg, obs={"step": si})
+    # ---- after the whole sequence
+    for mi, B in enumerate(bases):
+        if B is not None and _snap_mol(B["mol"]) != B["snap"]:
+            V("oracle:input_mutated", f"member {mi} '{members[mi]['var']}': the unoriented molecule was modified by orienting it (or a relative)")
+    for si, rec in results.items():
+        if _snap_mol(rec["mol"]) != rec["snap"]:
+            V("oracle:result_changed_later", f"{rec['tag']}: the molecule returned by this call was modified by later calls", obs={"step": si})
+    # sign convention and equality of repeated orientations, per (member, input seen by the orientation)
+    groups = {}
+    for si, rec in results.items():
+        if rec["path"] != "again":
+            groups.setdefault((rec["m"], rec["gin"].tobytes()), []).append(si)
+    for (mi, _), sis in groups.items():
+        hs = [s for s in sis if results[s]["d"] == 14]
+        os_ = [s for s in sis if results[s]["d"] == 8]
+        if not hs or not os_:
+            continue
+        H = results[hs[0]]["O"]
+        mb = bases[mi]["masses"]
+        gin = results[hs[0]]["gin"]
+        dec = None
+        for s in os_:
+            rec = results[s]
+            res, dec, dkey, band = sign_claims(H, rec["O"])
+            for kind, msg, obs in res:
+                V(kind, f"{rec['tag']}: {msg}", obs=obs)
+            out.count("family:sign_convention_checked")
+        cls, lam, gaps = classify(mb, gin)
+        if cls == "asym" and len(os_) >= 2:
+            a = results[os_[0]]
+            for s in os_[1:]:
+                b = results[s]
+                lim = same_input_limit(mb, H, dec, float(np.abs(gin).max()), a["O"], b["O"])
+                if lim is None:
+                    out.count("knife:family_repeat")
+                    continue
+                out.count("family:repeat_checked")
+                if np.any(np.abs(a["O"] - b["O"]) > lim):
+                    i, c = np.unravel_index(np.argmax(np.abs(a["O"] - b["O"]) - lim), lim.shape)
+                    V("oracle:repeat_call", f"the same input oriented twice in one process gives different coordinates: {a['tag']} vs {b['tag']}: atom {i} column {c}: {a['O'][i, c]!r} vs {b['O'][i, c]!r} (tol {lim[i, c]:.2e})", obs={"step": s})
+    nvalid = sum(1 for b in bases if b is not None)
+    vars_ = tuple(sorted({members[i]["var"] for i, b in enumerate(bases) if b is not None}))
+    if len(bases[0]["masses"]) >= 2 and nvalid >= 2:
+        out.nontrivial(("family", case["shape"], len(bases[0]["masses"]), vars_, len(results)))
+    out.sample({"stream": "family", "shape": case["shape"], "n": len(bases[0]["masses"]), "members": [m_["var"] for m_ in members], "calls": len(results)}, limit=8)
+    if use_model and ctx.model_available:
+        case["_calls"] = calls
+    out.violations += findings_v
+    out.mismatches += findings_m
+
+
 def run(ctx: Ctx) -> Outcome:
     out = Outcome()
     rng = ctx.rng
@@ -948,6 +1365,17 @@ def run(ctx: Ctx) -> Outcome:
         done += len(batch)
         for case in batch:
             run_case(ctx, out, case)
+        if ctx.model_available:
+            tie_cases(ctx, out, batch)
+    # call sequences: families of related molecules oriented one after another in this process (after the single-case stream, so
+    # that the cases of that stream are the same as before for a given seed)
+    nfam = ctx.scale(FAMILIES_QUICK, FAMILIES_THOROUGH)
+    done = 0
+    while done < nfam:
+        batch = [gen_family(rng) for _ in range(min(100, nfam - done))]
+        done += len(batch)
+        for fam in batch:
+            run_family(ctx, out, fam)
         if ctx.model_available:
             tie_cases(ctx, out, batch)
     if ctx.model_available:
@@ -968,6 +1396,11 @@ def replay(ctx: Ctx, case) -> Outcome:
         zero_mass_stream(ctx, out)
         return out
     case = json.loads(json.dumps(case))
+    if isinstance(case, dict) and case.get("stream") == "family":
+        run_family(ctx, out, case)
+        if ctx.model_available:
+            tie_cases(ctx, out, [case])
+        return out
     run_case(ctx, out, case)
     if ctx.model_available:
         tie_cases(ctx, out, [case])
@@ -975,7 +1408,8 @@ def replay(ctx: Ctx, case) -> Outcome:
 
 
 def known_predicate(finding: Finding, entry) -> bool:
-    """the flushed-decider class only: the atom that decided the sign has 1e-8 <= |coordinate| < 5^-9 + 1e-8"""
+    """the flushed-decider class only: the atom that decided the sign has 1e-8 <= |coordinate| < 5^-9 + 1e-8
+    (oracle:from_data_kwargs_written_into_input was a genuine defect, repaired in /repo: a plain demand now)"""
     obs = finding.observed or {}
     vals = obs.get("decider_values") or ([obs["decider_value"]] if "decider_value" in obs else [])
     return bool(vals) and all(NOISE - 1e-12 <= abs(v) < FLUSH8 + 1.1e-8 for v in vals)
